@@ -166,8 +166,8 @@ Fixpoint all_out (l : list out) : out :=
 Definition keys_eqb (a b : list (label * constr)) : bool :=
   forallb (fun k => mem k (map fst b)) (map fst a) && forallb (fun k => mem k (map fst a)) (map fst b).
 
-(* ConstrainedQuadraticModel.is_equal has no try block: other.objective on anything
-   that is not a CQM raises AttributeError *)
+(* ConstrainedQuadraticModel.is_equal: `if not isinstance(other, ConstrainedQuadraticModel):
+   return False` (since the repair a52e756), then objective, constraint labels, constraints *)
 Definition cqm_is_equal_code (c : cqm) (o : obj) : out :=
   match o with
   | OCqm d =>
@@ -177,7 +177,7 @@ Definition cqm_is_equal_code (c : cqm) (o : obj) : out :=
                                     | Some c1 => constraint_eq (snd lc) c1
                                     | None => Raise KeyErr
                                     end) (q_cons c))))
-  | _ => Raise AttrErr
+  | _ => Val false
   end.
 
 (* ---------- specification ---------- *)
